@@ -18,7 +18,6 @@ theorem fromLE_leBytes (n w : Nat) : fromLE (leBytes n w) = w % 256 ^ n := by
   | succ k ih =>
     simp only [leBytes, fromLE, ih]
     rw [Nat.pow_succ, Nat.mul_comm (256 ^ k) 256, Nat.mod_mul]
-    omega
 
 theorem leBytes_lt (n w : Nat) : ∀ b ∈ leBytes n w, b < 256 := by
   induction n generalizing w with
@@ -41,7 +40,7 @@ theorem packInt_accept_iff (big signed : Bool) (n : Nat) (v : Int) :
 /-- little-endian: the bytes are the base-256 digits of v mod 2^(8n) -/
 theorem packInt_le_value (signed : Bool) (n : Nat) (v : Int) (bs : List Nat)
     (h : packInt false signed n v = some bs) :
-    bs.length = n ∧ (∀ b ∈ bs, b < 256) ∧ (fromLE bs : Int) = v % (2 ^ (8 * n) : Int) := by
+    bs.length = n ∧ (∀ b ∈ bs, b < 256) ∧ (fromLE bs : Int) = v % ((2 ^ (8 * n) : Nat) : Int) := by
   have hl := packInt_length h
   unfold packInt at h
   split at h
@@ -52,13 +51,18 @@ theorem packInt_le_value (signed : Bool) (n : Nat) (v : Int) (bs : List Nat)
     have h256 : (256 : Nat) ^ n = 2 ^ (8 * n) := by
       rw [show (256 : Nat) = 2 ^ 8 by rfl, ← Nat.pow_mul]
     rw [h256]
-    have hpos : (0 : Int) ≤ v % (2 ^ (8 * n) : Int) := Int.emod_nonneg _ (by positivity)
-    have hlt : v % (2 ^ (8 * n) : Int) < (2 ^ (8 * n) : Int) := Int.emod_lt_of_pos _ (by positivity)
-    have : ((v % (2 ^ (8 * n) : Int)).toNat : Int) = v % (2 ^ (8 * n) : Int) := Int.toNat_of_nonneg hpos
-    rw [Nat.mod_eq_of_lt]
-    · exact this
-    · have := this ▸ hlt
-      exact_mod_cast (by omega : ((v % (2 ^ (8 * n) : Int)).toNat : Int) < ((2 ^ (8 * n) : Nat) : Int))
+    have hp : (0 : Int) < ((2 ^ (8 * n) : Nat) : Int) := by
+      have : 0 < 2 ^ (8 * n) := Nat.two_pow_pos _
+      exact_mod_cast this
+    have hcast : ((2 : Int) ^ (8 * n)) = ((2 ^ (8 * n) : Nat) : Int) := by push_cast; rfl
+    rw [hcast]
+    generalize ((2 ^ (8 * n) : Nat)) = m at hp ⊢
+    have hpos : (0 : Int) ≤ v % (m : Int) := Int.emod_nonneg _ (by omega)
+    have hlt : v % (m : Int) < (m : Int) := Int.emod_lt_of_pos _ hp
+    have e : ((v % (m : Int)).toNat : Int) = v % (m : Int) := Int.toNat_of_nonneg hpos
+    have hlt' : (v % (m : Int)).toNat < m := by omega
+    rw [Nat.mod_eq_of_lt hlt']
+    exact e
   · simp at h
 
 /-- big-endian is the reverse -/
@@ -74,8 +78,11 @@ theorem seq_elem_accept_iff (n : Nat) (hn : 0 < n) (v : Int) :
       (-(2 ^ (8 * n - 1) : Int) ≤ v ∧ v < (2 ^ (8 * n) : Int)) := by
   rw [packInt_accept_iff]
   have h2 : (2 : Int) ^ (8 * n) = 2 * 2 ^ (8 * n - 1) := by
-    rw [show 8 * n = (8 * n - 1) + 1 by omega, Int.pow_succ]; ring_nf
-  have hp : (0 : Int) < 2 ^ (8 * n - 1) := by positivity
+    have : 8 * n = (8 * n - 1) + 1 := by omega
+    rw [this, Int.pow_succ]; simp; omega
+  have hp : (0 : Int) < 2 ^ (8 * n - 1) := Int.pow_pos (by omega)
+  generalize (2 : Int) ^ (8 * n - 1) = a at h2 hp ⊢
+  generalize (2 : Int) ^ (8 * n) = b at h2 ⊢
   by_cases hv : v < 0
   · simp only [hv, decide_true, if_true]; constructor <;> intro h <;> constructor <;> omega
   · simp only [hv, decide_false, Bool.false_eq_true, if_false]; constructor <;> intro h <;> constructor <;> omega
